@@ -664,7 +664,18 @@ impl PaZipCompressor {
                     output.push(byte_value);
                 }
             }
-            CompressionType::NearShort | CompressionType::Far1Short => {
+            CompressionType::Far1Short => {
+                // Read 2-byte distance and 1-byte length (as written by apply_compression_strategy)
+                if new_pos + 2 >= input.len() {
+                    return Ok(new_pos);
+                }
+                let distance = u16::from_le_bytes([input[new_pos], input[new_pos + 1]]) as usize;
+                let length = input[new_pos + 2] as usize;
+                new_pos += 3;
+
+                self.copy_from_distance(output, distance, length)?;
+            }
+            CompressionType::NearShort => {
                 // Read distance and length (both as single bytes)
                 if new_pos + 1 >= input.len() {
                     return Ok(new_pos);
@@ -676,13 +687,15 @@ impl PaZipCompressor {
                 self.copy_from_distance(output, distance, length)?;
             }
             CompressionType::Far2Short => {
-                // Read 2-byte distance and 1-byte length
-                if new_pos + 2 >= input.len() {
+                // Read 4-byte distance and 1-byte length (as written by apply_compression_strategy)
+                if new_pos + 4 >= input.len() {
                     return Ok(new_pos);
                 }
-                let distance = u16::from_le_bytes([input[new_pos], input[new_pos + 1]]) as usize;
-                let length = input[new_pos + 2] as usize;
-                new_pos += 3;
+                let distance = u32::from_le_bytes([
+                    input[new_pos], input[new_pos + 1], input[new_pos + 2], input[new_pos + 3]
+                ]) as usize;
+                let length = input[new_pos + 4] as usize;
+                new_pos += 5;
 
                 self.copy_from_distance(output, distance, length)?;
             }
